@@ -21,7 +21,7 @@ func (g *Group[K, V]) fspec_Do_fn() (v V, err error) {
 func (g *Group[K, V]) spec_doCall(c *call[V], key K, fn func() (V, error)) {
 	flag("may_panic") // a panic of fn is re-raised after the bookkeeping (propagation itself is not modelled)
 	requires("registered", c != nil && g.m != nil)
-	ensures("entry_removed", !has(g.m, key) || g.m[key] != c)
+	ensures("always_entry_removed", !has(g.m, key) || g.m[key] != c)
 	ensures("others_kept", all(func(k K) bool { return imp(k != key, has(g.m, k) == old(has(g.m, k)) && g.m[k] == old(g.m[k])) }))
 }
 
